@@ -1415,6 +1415,12 @@ impl HashColumn {
 				tables.value[record.table.size_tier() as usize].validate_plan(record.index, log)?;
 			},
 			LogAction::InsertRefCount(record) => {
+				if tables.ref_count.is_none() {
+					return Err(Error::Corruption(format!(
+						"Unexpected ref count log entry for column {}",
+						self.col
+					)))
+				}
 				if tables.get_ref_count().id == record.table {
 					tables.get_ref_count().validate_plan(record.index, log)?;
 				} else if let Some(table) = reindex
